@@ -1889,9 +1889,8 @@ class Irc(IrcCommandDispatcher, log.Firewalled):
             # NOTE: Capabilities are requested in alphabetic order, because
             # sets are unordered, and their "order" is nondeterministic.
             # This is needed for the tests.
-            if new_caps:
-                self._requestCaps(new_caps)
-            else:
+            if not (new_caps and self._requestCaps(new_caps)):
+                # Nothing (more) to request.
                 self.endCapabilityNegociation(msg)
         else:
             log.warning('Bad CAP LS from server: %r', msg)
@@ -1963,6 +1962,8 @@ class Irc(IrcCommandDispatcher, log.Firewalled):
         for cap_line in cap_lines:
             self.sendMsg(ircmsgs.IrcMsg(command='CAP',
                 args=('REQ', cap_line)))
+        # Empty if 'echo-message' was the only candidate and was dropped above.
+        return cap_lines
 
     def monitor(self, targets):
         """Increment a counter of how many callbacks monitor each target;
